@@ -42,7 +42,20 @@ class IdxMap(object):
             raise KeyError(pv)
         if not self.I.truth(SBool(_known(pv.t))):
             raise KeyError(pv)
-        return SInt(_idx(pv.t))
+        r = SInt(_idx(pv.t))
+        n = self.__sym_len__()
+        self.I.E.assume(And(r >= 0, r < n))        # a position in the list of known versions
+        return r
+
+    def __sym_len__(self):
+        return SInt(z3.Int('known.count'))
+
+    def __contains__(self, pv):
+        try:
+            self[pv]
+            return True
+        except KeyError:
+            return False
 
     def get(self, pv, default=None):
         try:
